@@ -30,9 +30,33 @@ def comparator_tables(ctx, which):
         R = ctx.body(CMP_B + '::{closure#0}')
         rank_fn = CMP_B + '::{closure#0}'
         adt = BORROWED
+    vs = [v['n'] for v in ctx.F.adts[adt]['variants']] if adt in ctx.F.adts else []
+    if B is not None and R is not None:
+        try:
+            if len(rank_table(R, len(vs))) < len(vs) - 1:
+                R = None
+        except Exception:
+            R = None
+    if B is not None and R is None:
+        # the ranking may live in another function or closure than on the reviewed tree: any callee / closure of the comparator
+        # that maps every variant to a number is the rank function
+        cands = []
+        for bb_, t_ in B.calls():
+            cands += [n_ for n_ in callee_names(t_) if n_ in ctx.F.bodies]
+        for bb_, j_, st_ in B.stmts():
+            if st_['k'] == '=' and st_['rv']['k'] == 'agg' and st_['rv'].get('ak') == 'closure' and st_['rv'].get('def') in ctx.F.bodies:
+                cands.append(st_['rv']['def'])
+        for c_ in cands:
+            RB_ = P.B(c_)
+            try:
+                rt_ = rank_table(RB_, len(vs))
+            except Exception:
+                rt_ = {}
+            if len(rt_) >= len(vs) - 1 and len(set(rt_.values())) >= 5:
+                R, rank_fn = RB_, c_
+                break
     if B is None or R is None:
         return None
-    vs = [v['n'] for v in ctx.F.adts[adt]['variants']]
     ranks = rank_table(R, len(vs))
     table = {}
     for i, a in enumerate(vs):
